@@ -70,7 +70,7 @@ def main():
     hooks = [l.split()[0] for l in head if "verification hooks" in l or l.split(" ", 1)[1].startswith("hook:")]
     m = {
         "version": 1,
-        "setup_cmd": "cd /verif/harness && (test -f Cargo.lock || cp /repo/Cargo.lock .) && CARGO_NET_OFFLINE=true cargo build --release --offline && cd /verif/specs && for f in LoomSem LoomSemTrace Explore ExploreMC ExploreTrace CheckLoop AtomicSeq; do tla-sany $f.tla >/dev/null || exit 1; done",
+        "setup_cmd": "cd /verif/harness && (test -f Cargo.lock || cp /repo/Cargo.lock .) && CARGO_NET_OFFLINE=true cargo build --release --offline && cd /verif/specs && for f in LoomSem LoomSemTrace Explore ExploreMC ExploreTrace CheckLoop AtomicSeq RC11Ax; do tla-sany $f.tla >/dev/null || exit 1; done",
         "hooks": {
             "guard": "cargo feature `verif` (implies `checkpoint`)",
             "enable": "harness/Cargo.toml: loom = { path = \"/repo\", features = [\"verif\", \"futures\"] }",
